@@ -60,11 +60,14 @@ LAYOUTS = {
     "entries with all parts": ([PARTS[:1], PARTS[1:2], PARTS[2:]], "canonical", False, ()),
     "alternatives wrapped after the pipe": ([[A, B, Cc], [D]], "pipe-eol", False, ()),
     "wrapped inside relations": ([[PARTS[2]], [A, PARTS[1]]], "wrapped", False, ()),
+    "one entry on a continuation line": ([[A]], "lead-nl", False, ()),
 }
 
 
 def layout_tokens(layout):
     entries, style, trailing, svars = layout
+    if style == "lead-nl":
+        return [relspec.rt("NEWLINE"), relspec.ws(" ")] + relspec.field_tokens(entries, "canonical", trailing, svars, sym=SYM)
     if style != "pipe-eol":
         return relspec.field_tokens(entries, style, trailing, svars, sym=SYM)
     out = []
@@ -340,6 +343,26 @@ def entry_texts(cx, st, nid):
     return [symstr.show(symstr.mk(cx.tm.text_of(h, c))) for c in h[nid][3] if h[c][1] == "N" and h[c][2] == "ENTRY"]
 
 
+def read_back(cx, st):
+    """the field as the repository's own accessors report it (entries -> relations -> name/archqual/version/...)"""
+    v = cx.I.deref_val(st, st.store[("T", "rels")])
+    nid = cx.tm.unwrap(cx.I, st, v[2][0])[2]
+    h = treemodel.heap_get(st)
+    out = []
+    try:
+        for e in h[nid][3]:
+            if h[e][1] == "N" and h[e][2] == "ENTRY":
+                alts = []
+                for c in h[e][3]:
+                    if h[c][1] == "N" and h[c][2] == "RELATION":
+                        alts.append(c10.read_relation_via_accessors(cx.F, cx.I, cx.tm, st, ("enum", PFX + "Relation", (("abs", "nref", c),))))
+                if alts:
+                    out.append(alts)
+    except hirai.Violation as e:
+        return "analysis: %s" % e
+    return out
+
+
 def count_empty_entries(toks):
     """number of empty entries (',' with nothing before it since the previous ',' or the start; a trailing ',' counts one)"""
     n = 0
@@ -423,6 +446,8 @@ def run_history_(cx, C, F, lname, layout, ops, cells):
     ok = C.ob("C11/wellformed", label, got is not None, "%r -> %r is not a well-formed field: %s" % (text0, text, err), sp)
     if ok:
         C.ob("C11/model", label, got == M(model), "%r -> %r denotes %s, the list model has %s" % (text0, text, got, model), sp)
+        acc = read_back(cx, st)
+        C.ob("C11/accessors", label, acc == M(model), "%r -> %r: entries()/relations() and the relation accessors report %s, the list model has %s" % (text0, text, acc, M(model)), sp)
         C.ob("C11/substvars", label, gsv == list(svars), "%r -> %r has substvars %s, expected %s" % (text0, text, gsv, list(svars)), sp)
         C.ob("C11/no-stray-separators", label, count_empty_entries(otoks) <= empties0, "%r -> %r has more empty entries (duplicated or dangling separators) than before" % (text0, text), sp)
         rels2, errs2, st2, mod2 = db.parse_relations(F, otoks, allow_substvar=bool(svars))
